@@ -129,6 +129,13 @@ class Interp:
                 if callable(meth):
                     return meth(*args, **kw)
                 raise SymExecError("unknown method %s" % norm(e.func)[:40])
+            if isinstance(e.func, ast.Attribute) and e.func.attr in ("append", "extend", "insert", "pop", "copy", "index"):
+                try:
+                    base = self.ev(e.func.value)
+                except SymExecError:
+                    base = None
+                if isinstance(base, list):
+                    return getattr(base, e.func.attr)(*args)
             if name == "len":
                 return len(args[0])
             if name == "range":
